@@ -45,6 +45,8 @@ class CheckRun:
         self.kf_entries = kf.load()
         self.extra = {}
         self.max_violation_files = 5
+        self.shrinks_done = 0
+        self.max_shrinks = 25
 
     # ---- cases ------------------------------------------------------------------------
     def case(self, prog=None, shape=None, nontrivial=True, sample=None):
@@ -70,14 +72,32 @@ class CheckRun:
             self.known[e["id"]] += 1
             self.known_what[e["id"]] = e.get("what", e.get("feature"))
             return "known"
-        self.violation(f, prog, reshrink)
+        # Not explained on the program as generated: reduce it to a minimal witness of the *same* finding
+        # and classify that (features of a known finding are easier to recognise without bystander steps;
+        # the shrunk program still exhibits this finding, so this cannot excuse a different defect).
+        wit, runs = prog, 0
+        if reshrink is not None and prog is not None and self.shrinks_done < self.max_shrinks:
+            self.shrinks_done += 1
+            try:
+                from . import shrink
+
+                wit, runs = shrink.shrink(prog, reshrink, budget=120)
+            except Exception:
+                wit = prog
+            if wit is not prog:
+                e = kf.classify(self.kf_entries, self.prop, f, wit, None)
+                if e is not None:
+                    self.known[e["id"]] += 1
+                    self.known_what[e["id"]] = e.get("what", e.get("feature"))
+                    self.counters["known_findings_recognised_after_shrinking"] += 1
+                    return "known"
+        self.violation(f, wit, None, runs)
         return "violation"
 
-    def violation(self, f, prog, reshrink=None):
+    def violation(self, f, prog, reshrink=None, runs=0):
         rec = {"finding": f.brief() if hasattr(f, "brief") else str(f)}
         if len(self.violations) < self.max_violation_files:
             wit = prog
-            runs = 0
             if reshrink is not None and prog is not None:
                 try:
                     from . import shrink
